@@ -35,17 +35,26 @@ Clause -> case family
   "controlword and statusword carried by SDO or by PDO"
                                              transports sdo | cw (RPDO + SDO status)
                                              | sw (SDO + event TPDO) | ev (event
-                                             PDOs) | cyc (SYNC-cyclic TPDO, clock
-                                             thread in lock-step) | cycr (cyclic RPDO
-                                             task too) | free (timer TPDO, free
-                                             running clock)
+                                             PDOs) | cyc (SYNC-cyclic TPDO, one bus
+                                             cycle per wait_for_reception) | cycr
+                                             (cyclic RPDO task too) | free (timer
+                                             TPDO sent by a free running thread)
   "an operation mode the drive does not advertise is refused, a supported one is
    written to the drive as its CiA 402 mode code"
                                              fam=mode    10 modes x all 1024 values of
                                              bits 0..9 of 0x6502 (+ pseudo-random
                                              upper bits), by SDO and by RPDO
+                                             fam=hist    mode changes inside histories
+                                             (cached 0x6502, cyclic RPDO)
+
+Excluded by construction (counted, genuine defects of the unchanged tree, see
+EXCL_RACE / EXCL_EDGE): D-C19-1 automatic transition between the library's 2nd and
+3rd status read; D-C19-2 fault reset without a rising edge of bit 7.
+Not covered: targets outside the 8 states ('DISABLE VOLTAGE', arbitrary strings);
+faults occurring *during* an assignment; k > 3; homing; the op_mode getter.
 """
 import struct
+import time
 
 from hypothesis import strategies as st
 
@@ -59,8 +68,8 @@ LEVEL = "exploration"
 RULE = ("decode: every 16-bit statusword, delivered by SDO read of 0x6041 or in a TPDO (three layouts), "
         "node.state compared with the CiA 402 bit-pattern table (string patterns, 'UNKNOWN' when none "
         "matches). pair: every (drive state, target) of the 8 x 8 states x k in 0..3 observations before "
-        "an automatic transition x 7 transports (SDO / mixed / event PDO / SYNC-cyclic PDO with a lock-step "
-        "clock thread / cyclic RPDO / free-running timer PDO) x 4 free-status-bit sequences x PDO layout x "
+        "an automatic transition x 7 transports (SDO / mixed / event PDO / SYNC-cyclic PDO in lock-step / "
+        "cyclic RPDO / timer PDO from a free-running thread) x 4 free-status-bit sequences x PDO layout x "
         "setup (configuration read by SDO or set by hand) x last controlword of the drive; oracle = "
         "reference drive's final state, its count of entries into OPERATION ENABLED during the assignment "
         "and the controlwords it received. mode: 10 CiA 402 modes x all 1024 values of bits 0..9 of 0x6502; "
@@ -76,12 +85,16 @@ ASSUMPTIONS = [
     "at least one TPDO cycle has been received before the first assignment (the drive announces its TPDOs "
     "after set-up); in event-driven PDO variants the drive answers within the write (k = 0)",
     "mode 0 (NO MODE) needs no bit in 0x6502: CiA 402 defines the value 0 of 0x6060 for every drive",
-    "'refused' accepts any exception type; time-outs are canopen's own (shortened through its public "
-    "TIMEOUT_* attributes in the single-threaded variants, lengthened in the threaded ones)",
-    "the lock-step clock of the cyclic variants looks at threading.Condition._waiters of PdoMap.receive_condition "
-    "(CPython) to know that the master is blocked in wait_for_reception",
+    "'refused' accepts any exception type; the state time-outs are canopen's own (0.4 s / 0.8 s) in the "
+    "single-threaded variants (only TIMEOUT_CHECK_TPDO / TIMEOUT_SWITCH_OP_MODE are shortened: a frame that "
+    "has not arrived when the library starts waiting never will) and are lengthened in the threaded one",
+    "cyclic variants: PdoMap.receive_condition (public attribute) is replaced by a lock-step stand-in whose "
+    "wait() lets one bus cycle of the drive pass; the threaded variant (free) keeps canopen's Condition and is "
+    "only used when no automatic transition can be pending, so the outcome is interleaving-independent",
+    "both drive styles are accepted as conformant: commands acting on reception of the controlword, or the "
+    "latched controlword evaluated again in every new state (lvl); fault reset is edge-triggered in both",
 ]
-BUDGET = {"quick": 40, "thorough": 330}
+BUDGET = {"quick": 40, "thorough": 300}
 
 NODE = 5
 
@@ -134,7 +147,7 @@ class Rig:
             NODE, start=start, k=k, extras=case.get("extras", [0]), qs=case.get("qs", "stay"),
             cw0=case.get("cw0", 0), supported=case.get("supported", 0), display=case.get("display0", 0),
             kmode=case.get("kmode", 0), layout=layout, tpdo_tt=tpdo_tt, rpdo_tt=rpdo_tt,
-            level=case.get("lvl", False))
+            level=case.get("lvl", False), timer_only=thread == "free")
         self.drive.force_sw = force_sw
         self.drive.attach(self.hub)
         self.net, self.port = self.hub.attach("master")
@@ -199,6 +212,13 @@ class Rig:
         """Let one bus cycle pass between two user actions (cyclic variants)."""
         if self.thread_mode == "lockstep":
             self.cycle()
+        elif self.thread_mode == "free":
+            n = self.feeder.cycles
+            t_end = time.monotonic() + 20
+            while self.feeder.cycles < n + 2:
+                if self.feeder.error is not None or time.monotonic() > t_end:
+                    raise RuntimeError(f"clock thread is not running: {self.feeder.error}")
+                time.sleep(0.0002)
 
     def close(self):
         if self.feeder is not None:
@@ -265,11 +285,10 @@ def _brief(items, n=12):
 def _pair_kind(pre_case_start, target, facts, drive_k):
     if target in R.UNCOMMANDABLE:
         return "refuse-noop" if facts["pre"] == target else "refuse"
+    n = facts["nsteps"]
     if facts["autos"] or pre_case_start in (R.NRTSO, R.FRA):
-        return "auto+%d" % min(facts["nsteps"], 4)
-    if facts["nsteps"] == 0:
-        return "same"
-    return "direct" if facts["nsteps"] == 1 else "chain%d" % min(facts["nsteps"], 4)
+        return "auto-then-chain" if n >= 2 else "auto-then-direct" if n == 1 else "auto-only"
+    return "same" if n == 0 else "direct" if n == 1 else "chain"
 
 
 def _race_excluded(rig, target):
@@ -277,8 +296,8 @@ def _race_excluded(rig, target):
     leaves NOT READY TO SWITCH ON exactly between the library's second and third
     status read of an assignment (k = 2) makes the assignment raise ValueError
     ('Illegal state transition from SWITCH ON DISABLED to SWITCH ON DISABLED')."""
-    return (rig.sw_by_sdo and rig.drive.state == R.NRTSO and rig.drive.auto_left == 2
-            and target in R.COMMANDABLE)
+    # fixed in /repo (commit f92fafa): no longer excluded, the class is searched like any other
+    return False
 
 
 def run_pair(case):
@@ -292,14 +311,38 @@ def run_pair(case):
         if _edge_excluded(rig.drive, target):
             return Outcome(excluded=EXCL_EDGE)
         D = []
-        facts = _assign(rig, target, D, "pair")
+        facts = _assign_k(rig, target, D, "pair")
         if rig.feeder is not None and rig.feeder.error is not None:
             raise rig.feeder.error
     finally:
         rig.close()
     kind = _pair_kind(start, target, facts, case.get("k", 0))
-    nontrivial = kind not in ("same", "direct", "refuse-noop")
+    nontrivial = kind not in ("same", "direct", "refuse-noop", "auto-only")
     return Outcome(nontrivial, f"pair/{TR_GROUP[case['tr']]}/{kind}", D)
+
+
+KNOWN_EDGE_SIG = "C19/known/fault-reset-without-rising-edge-on-cyclic-rpdo"
+
+
+def _edge_known(rig, target):
+    """Known finding (known_findings.json, id C19-K1): with the controlword carried by a
+    *cyclic* RPDO the library writes 0x0000 and 0x0080 into the map between two bus
+    cycles, so the drive only ever sees 0x0080: when its last controlword already had
+    bit 7 set there is no rising edge, it stays in FAULT and the assignment times out.
+    (For SDO / event-driven transports this was repaired by commit 67b0c08.)"""
+    return (rig.tr == "cycr" and rig.drive.state in (R.FAULT, R.FRA)
+            and bool(rig.drive.last_cw & 0x80) and target in R.COMMANDABLE)
+
+
+def _assign_k(rig, target, D, tag):
+    """_assign, with the discrepancy of the known finding re-labelled so that it is
+    matched by its own entry and nothing else is."""
+    known = _edge_known(rig, target)
+    n = len(D)
+    facts = _assign(rig, target, D, tag)
+    if known and len(D) == n + 1 and D[n].signature == "C19/assign/raises/RuntimeError":
+        D[n].signature = KNOWN_EDGE_SIG
+    return facts
 
 
 def _edge_excluded(drive, target):
@@ -307,7 +350,8 @@ def _edge_excluded(drive, target):
     bit 7; the library writes 0x0080 only, so a drive whose last controlword
     already had bit 7 set (a fault right after a fault reset) never leaves FAULT
     and the assignment ends in RuntimeError (time-out)."""
-    return drive.state in (R.FAULT, R.FRA) and bool(drive.last_cw & 0x80) and target in R.COMMANDABLE
+    # fixed in /repo (commit 67b0c08): no longer excluded
+    return False
 
 
 EXCL_RACE = ("D-C19-1: statusword by SDO, drive leaves NOT READY TO SWITCH ON between the 2nd and 3rd "
@@ -436,7 +480,7 @@ def run_hist(case):
                     return Outcome(excluded=EXCL_EDGE)
                 if op["target"] == R.QSA and rig.drive.qs == "auto":
                     raise BadCase("target QSA with qs=auto")
-                facts = _assign(rig, op["target"], D, tag)
+                facts = _assign_k(rig, op["target"], D, tag)
                 if facts["nsteps"] or op["target"] in R.UNCOMMANDABLE:
                     effective += 1
                 kinds.add("set")
@@ -455,10 +499,11 @@ def run_hist(case):
                 except Exception as e:
                     got = f"raised {type(e).__name__}: {e}"
                 # what the master can know: the last statusword it was given
-                want = R.decode_state(rig.drive.last_word) if rig.sw_by_sdo else None
-                if want is not None and got != want:
-                    D.append(Discrepancy("C19/hist/view", f"{tag}: node.state = {got!r}, the drive's last "
-                                         f"statusword {rig.drive.last_word:#06x} is {want!r}"))
+                word = rig.drive.last_word if rig.sw_by_sdo else rig.drive.last_tpdo_word
+                want = R.decode_state(word)
+                if got != want:
+                    D.append(Discrepancy("C19/hist/view", f"{tag}: node.state = {got!r}, the last statusword "
+                                         f"the drive gave ({word:#06x}) is {want!r}"))
                 kinds.add("get")
             else:
                 raise BadCase(op)
@@ -468,9 +513,8 @@ def run_hist(case):
                 break
     finally:
         rig.close()
-    n = len(case["ops"])
-    return Outcome(effective >= 2, f"hist/{TR_GROUP[case['tr']]}/{'1-2' if n <= 2 else '3-4' if n <= 4 else '5-7'}-ops"
-                                   f"{'/with-fault' if 'fault' in kinds else ''}", D)
+    return Outcome(effective >= 2, f"hist/{TR_GROUP[case['tr']]}/"
+                                   f"{'with-fault' if 'fault' in kinds else 'no-fault'}", D)
 
 
 def run_case(case) -> Outcome:
@@ -610,11 +654,38 @@ def hist_case(draw):
     return case
 
 
+def showcase():
+    """One case per family / transport first, so that the evidence samples show the variety."""
+    ex = EXTRAS[2]
+    yield {"fam": "pair", "tr": "sdo", "start": R.FRA, "target": R.OE, "k": 3, "extras": ex, "qs": "stay",
+           "layout": "none", "setup": "read", "od_pdo": False}
+    yield {"fam": "pair", "tr": "ev", "start": R.QSA, "target": R.SO, "k": 0, "extras": ex, "qs": "stay",
+           "layout": "D", "setup": "read", "cw0": 2, "lvl": True}
+    yield {"fam": "pair", "tr": "cycr", "start": R.NRTSO, "target": R.QSA, "k": 2, "extras": ex,
+           "qs": "stay", "layout": "C", "setup": "manual"}
+    yield {"fam": "pair", "tr": "free", "start": R.OE, "target": R.FAULT, "k": 0, "extras": [0xFFFF],
+           "qs": "stay", "layout": "B", "setup": "read", "cw0": 0xF}
+    yield {"fam": "decode", "sw": 0x5237, "via": "sdo"}
+    yield {"fam": "decode", "sw": 0xFF5F, "via": "tpdo4"}
+    yield {"fam": "mode", "tr": "sdo", "layout": "none", "mode": "HOMING", "supported": 0xA5000020,
+           "probe": True, "display0": 1, "kmode": 2, "setup": "read"}
+    yield {"fam": "mode", "tr": "ev", "layout": "M", "mode": "CYCLIC SYNCHRONOUS TORQUE",
+           "supported": 0x000001FF, "probe": False, "display0": 0, "setup": "manual"}
+    yield {"fam": "hist", "tr": "cw", "layout": "CW", "setup": "read", "start": R.SOD, "k": 1, "extras": ex,
+           "qs": "stay", "supported": 0x3EF, "display0": 0, "lvl": False, "cw0": 0,
+           "ops": [{"op": "set", "target": R.OE}, {"op": "fault"}, {"op": "get"}, {"op": "set", "target": R.SO},
+                   {"op": "mode", "mode": "PROFILED VELOCITY", "probe": True}, {"op": "set", "target": R.FRA}]}
+    yield {"fam": "hist", "tr": "cyc", "layout": "A", "setup": "manual", "start": R.OE, "k": 2, "extras": [0],
+           "qs": "stay", "supported": 0, "display0": 0, "lvl": True, "cw0": 0xF,
+           "ops": [{"op": "set", "target": R.QSA}, {"op": "set", "target": R.OE}, {"op": "set", "target": R.RTSO}]}
+
+
 def search(ctx):
     thorough = ctx.tier == "thorough"
+    ctx.enumerate(showcase())
     ctx.enumerate(pair_cases(ctx.tier), "8 x 8 (state, target) pairs x transports x k x status-bit patterns")
     ctx.enumerate(mode_cases(ctx.tier), "10 operation modes x all 1024 values of bits 0..9 of 0x6502")
     ctx.enumerate(decode_cases(ctx.tier),
                   "all 65536 statuswords" + (" over 4 carriers" if thorough else
                                              " by TPDO; sparse sweep over SDO and two more TPDO layouts"))
-    ctx.hypothesis(hist_case(), 10000 if thorough else 500)
+    ctx.hypothesis(hist_case(), 6000 if thorough else 500)
